@@ -1,10 +1,10 @@
 SPECIFICATION Spec
 CONSTANTS
   Letters = {97, 99, 103, 116, 110, 65}
-  Pre = {97, 99, 103, 116, 110, 65}
+  Pre = {110}
   Ks = {2, 3}
   MaxLen = 6
   Variant = "code"
-INVARIANTS TypeOK VisitsExact RunAgrees Rolling FreqExact BuildExact OccByCodes WordLaws
+INVARIANTS TypeOK VisitsExact RunAgrees Rolling IndexExact WordLaws
 PROPERTY VisitNow
 CHECK_DEADLOCK FALSE
